@@ -78,9 +78,9 @@ CHECKS = {
         "batches": [
             {"engine": "dkgsim", "mode": "chaos", "runs": {"quick": 120000, "thorough": 3000000}, "budget": {"quick": 60, "thorough": 1500}},
             {"engine": "thrnet", "mode": "", "runs": {"quick": 16000, "thorough": 400000}, "budget": {"quick": 45, "thorough": 1200}},
-            # thorough only: the same two workloads in a `go build -asan` worker (C heap and Go objects handed to C are address-sanitised)
-            {"engine": "dkgsim", "mode": "chaos", "worker": "asan", "build": "asan", "runs": {"quick": 0, "thorough": 600000}, "budget": {"quick": 0, "thorough": 1200}, "det": False},
-            {"engine": "thrnet", "mode": "", "worker": "asan", "build": "asan", "runs": {"quick": 0, "thorough": 100000}, "budget": {"quick": 0, "thorough": 1200}, "det": False},
+            # the same two workloads in a `go build -asan` worker (C heap and Go objects handed to C are address-sanitised)
+            {"engine": "dkgsim", "mode": "chaos", "worker": "asan", "build": "asan", "runs": {"quick": 16000, "thorough": 600000}, "budget": {"quick": 30, "thorough": 1200}, "det": False},
+            {"engine": "thrnet", "mode": "", "worker": "asan", "build": "asan", "runs": {"quick": 3200, "thorough": 100000}, "budget": {"quick": 30, "thorough": 1200}, "det": False},
         ],
         "rule": ("thrnet batch: see C06 (every call on the stateful inspector/participant and the stateless reconstruction runs under recover; shares of length 0/47/49, indices out of range). chaos mode: each run draws protocol, n<=5, t, dealer and a weighted mix of API calls (swarm), then 8..68 (thorough ..158) calls on live instances: deliveries of real messages to nodes in any "
                  "phase, Start, Start with a too short seed, NextTimeout, End, ForceDisqualify with in/out-of-range indices, handlers with unauthenticated origins {-1,n,255,256,2^31-1,-2^31} "
@@ -89,7 +89,7 @@ CHECKS = {
         "time_unit": "API calls on DKG instances",
         "real": DKG_REAL, "stub": ["scheduler of API calls", "payload grammar"],
         "assumptions": ["SCOPE: only the history-dependent surfaces of C09 (DKG handlers, lifecycle calls, ForceDisqualify; the stateful threshold inspector is covered by the thrnet batch once registered); stateless decoders/constructors are pure-input questions and are not claimed",
-                        "cgo calls are atomic; out-of-bounds accesses inside C are only visible in the thorough tier's ASan build"],
+                        "out-of-bounds accesses inside C are visible only in the batches built with `go build -asan` (a smaller share of the runs)"],
         "expected_probes": [],
     },
     "C10": {
